@@ -64,6 +64,23 @@ def exc_of(name):
             "KeyboardInterrupt": KeyboardInterrupt, "SystemExit": SystemExit}[name]("injected")
 
 
+def fault_sig(fault):
+    """(fault kind, exception) for a violation signature - no positions."""
+    if fault is None:
+        return None, None
+    if fault[0] == "stdout":
+        return "stdout-" + fault[2], fault[3]
+    return fault[0], (fault[2] if len(fault) > 2 else None)
+
+
+def op_name(op):
+    if op[0] in ("drawa", "drawx"):
+        return "draw"
+    if op[0] == "badargs":
+        return "incompatible-args:" + op[1]
+    return op[0]
+
+
 class Shim:
     def __init__(self, r, it):
         self.r, self.it = r, it
@@ -93,14 +110,14 @@ class Scn:
                                     #   owner= "caller" | generation of the owning iterator, caller_fin=bool)
         self.budget = cfg["faults"]
         self.fired = False
-        self.calls = (0, 0)
+        self.calls = (0, 0, 0)
 
     # ---------------------------------------------------------------- fault plumbing
     def arm(self, fault):
         r = self.r
         br, bg = r.n_render, r.n_getdata
         self.fired = False
-        if fault is None or fault[0] == "validate":
+        if fault is None or fault[0] in ("validate", "stdout"):
             r.fault = None
             return
 
@@ -141,9 +158,13 @@ class Scn:
         n0 = len(r.datas)
         r0, g0 = r.n_render, r.n_getdata
         self.arm(fault)
+        p0 = self.stdout.npoints
         if fault is not None and fault[0] == "validate":
             self.tty.cols, self.tty.rows = 1, 1
             self.fired = True
+        if fault is not None and fault[0] == "stdout":     # the j-th write / flush / sleep of this operation fails
+            self.stdout.plan = world.FaultPlan(k=p0 + fault[1], mode=fault[2],
+                                               exc={"KeyboardInterrupt": KeyboardInterrupt, "OSError": OSError}[fault[3]])
         out = ("ok",)
         try:
             if k == "render":
@@ -154,6 +175,28 @@ class Scn:
                 r.draw(animate=False)
             elif k == "drawa":
                 r.draw(loops=op[1], cache=op[2])
+            elif k == "badargs":            # render arguments of an unrelated render class: every entry point
+                bad = lb["args"]["bad"]
+                if op[1] == "render":
+                    r.render(bad)
+                elif op[1] == "draw":
+                    r.draw(bad, animate=False)
+                elif op[1] == "drawa":
+                    r.draw(bad, loops=1)
+                elif op[1] == "iter":
+                    lb["RI"](r, bad)
+                else:                       # _from_render_data_: the caller keeps his data
+                    r.fault = None
+                    data = r._get_render_data_(iteration=True)
+                    self.rec[len(r.datas) - 1] = dict(kind="caller", owner="caller", caller_fin=False)
+                    n0 = len(r.datas)
+                    try:
+                        lb["RI"]._from_render_data_(r, data, bad, finalize=False)
+                    finally:
+                        gc.collect()
+                        early = data.finalized          # the library must leave the caller's data alone
+                        data.finalize()
+                        self.rec[n0 - 1]["caller_fin"] = not early
             elif k == "drawx":
                 if op[1] == "nocheck":
                     r.draw(animate=False, check_size=False)
@@ -220,11 +263,16 @@ class Scn:
             r.fault = None
             if fault is not None and fault[0] == "validate":
                 self.tty.cols, self.tty.rows = TERM
-        self.calls = (r.n_render - r0, r.n_getdata - g0)
+            if fault is not None and fault[0] == "stdout":
+                self.fired = self.stdout.plan.fired
+                self.stdout.plan = None
+        self.calls = (r.n_render - r0, r.n_getdata - g0, self.stdout.npoints - p0)
         # data objects the library created inside this operation
         for i in range(n0, len(r.datas)):
             if k == "iter":
                 self.rec[i] = dict(kind="iter", owner=self.gen) if self.it_data == i else dict(kind="failed-ctor")
+            elif k == "badargs" and op[1] in ("iter", "frd"):
+                self.rec[i] = dict(kind="failed-ctor")
             else:
                 self.rec[i] = dict(kind="oneshot")
         return out
@@ -252,11 +300,10 @@ class Scn:
 
     def check(self, op, fault, out):
         """Violation (signature, what) or None."""
-        fk = None if fault is None else fault[0]
-        fe = None if fault is None or len(fault) < 3 else fault[2]
+        fk, fe = fault_sig(fault)
 
         def v(clause, what, **kw):
-            sig = dict(clause=clause, op="draw" if op[0] in ("drawa", "drawx") else op[0], fault=fk, exc=fe)
+            sig = dict(clause=clause, op=op_name(op), fault=fk, exc=fe)
             sig.update(kw)
             return sig, f"{what} [cfg={self.cfg}, op={op}, fault={fault}]"
 
@@ -283,11 +330,10 @@ class Scn:
 
     def check_outcome(self, op, fault, out, state_before):
         k = op[0]
-        fk = None if fault is None else fault[0]
-        fe = None if fault is None or len(fault) < 3 else fault[2]
+        fk, fe = fault_sig(fault)
 
         def v(clause, what, **kw):
-            sig = dict(clause=clause, op=k, fault=fk, exc=fe)
+            sig = dict(clause=clause, op=op_name(op), fault=fk, exc=fe)
             sig.update(kw)
             return sig, f"{what} [cfg={self.cfg}, op={op}, fault={fault}]"
 
@@ -303,10 +349,13 @@ class Scn:
             return v("not-closed", f"the iterator is not closed after {k} -> {out}")
         if k == "cdfin" and out != ("ok",):
             return v("finalize-not-idempotent", f"RenderData.finalize(): {out}", got=M.res_sig(out))
+        if k == "badargs" and out != ("raise", "IncompatibleRenderArgsError") and not (
+                self.cfg["n"] == 1 and op[1] in ("iter", "frd") and out == ("raise", "ValueError")):   # not animated
+            return v("incompatible-args-accepted", f"incompatible render args: {out}", got=M.res_sig(out))
         if k == "frd_stale" and out != ("raise", "ValueError"):
             return v("stale-data-accepted", f"_from_render_data_ with finalized data: {out}", got=M.res_sig(out))
         if not self.fired and out[0] == "raise" and not (
-                (k == "seekbad" and out[1] == "ValueError") or k == "frd_stale"
+                (k == "seekbad" and out[1] == "ValueError") or k in ("frd_stale", "badargs")
                 or (state_before == "closed" and k in ("next", "seek0", "seekbad", "size", "close"))
                 or (self.cfg["n"] == 1 and k in ("iter", "frd") and out[1] == "ValueError")):   # not animated
             return v("exception", f"{k} raised {out[1]} without any fault", got=M.res_sig(out))
@@ -333,17 +382,26 @@ class Scn:
 def ops_of(cfg):
     ops = [("render",), ("str",), ("draw",), ("drawa", 1, False), ("drawa", 2, True),
            ("iter", 1, False), ("iter", 2, True), ("frd", 1, 1), ("frd", 0, 2), ("frd_stale",),
-           ("next",), ("seek0",), ("seekbad",), ("size",), ("close",), ("drop",), ("cdfin",)]
+           ("next",), ("seek0",), ("seekbad",), ("size",), ("close",), ("drop",), ("cdfin",),
+           ("badargs", "render"), ("badargs", "draw"), ("badargs", "drawa"), ("badargs", "iter"), ("badargs", "frd")]
     if cfg.get("rich"):
         ops += [("drawa", 2, False), ("iter", -1, True), ("iter", 3, 2), ("drawa", 3, 2), ("frd", 1, 2), ("frd", 0, 1),
                 ("drawx", "nocheck"), ("drawx", "scroll"), ("drawx", "exactpad"), ("drawx", "echo")]
     return ops
 
 
-def fault_variants(op, calls, excs):
+def fault_variants(op, calls, excs, stdout_faults=False):
     """Every fault position inside *op* given the calls its fault-free run made."""
     out = []
-    nr, ng = calls
+    nr, ng, npoints = calls
+    if op[0] == "badargs":
+        return out
+    if stdout_faults and op[0] in ("draw", "drawa", "drawx"):
+        # every write / flush / sleep of the draw, the closing sequence in its `finally` included
+        for j in range(1, npoints + 1):
+            for mode in ("instead", "after"):
+                for x in ("KeyboardInterrupt", "OSError"):
+                    out.append(("stdout", j, mode, x))
     for j in range(1, ng + 1):
         for x in excs:
             out.append(("getdata", j, x))
@@ -410,7 +468,7 @@ def explore_cfg(col, cfg):
                 if first:
                     first = False
                     if budget > 0 and viol is None:
-                        variants = fault_variants(op, s2.calls, excs)
+                        variants = fault_variants(op, s2.calls, excs, cfg.get("stdout_faults", False))
                 case = dict(cfg=cfg, history=[[list(o), None if f is None else list(f)] for o, f in h],
                             op=list(op), fault=None if fault is None else list(fault))
                 if viol is not None:
@@ -433,20 +491,22 @@ def explore_cfg(col, cfg):
 def configs(tier):
     out = []
     if tier == "quick":
-        out.append(dict(n=2, faults=1, excs=list(EXCS)))
+        out.append(dict(n=2, faults=1, excs=list(EXCS), stdout_faults=True))
         out.append(dict(n="I2", faults=1, excs=list(EXCS)))
         out.append(dict(n=3, faults=0, excs=[], rich=True))
-        out.append(dict(n=1, faults=1, excs=list(EXCS), rich=True))
-        out.append(dict(n=2, faults=1, excs=["RenderError", "KeyboardInterrupt"], tty=False))
+        out.append(dict(n=1, faults=1, excs=list(EXCS), rich=True, stdout_faults=True))
+        out.append(dict(n=2, faults=1, excs=["RenderError", "KeyboardInterrupt"], tty=False, stdout_faults=True))
     else:
         for n in (2, 3, "I2", "I3"):
             out.append(dict(n=n, faults=2, excs=list(EXCS_MORE), rich=True))
-            out.append(dict(n=n, faults=1, excs=list(EXCS_MORE), rich=True, tty=False))
+            out.append(dict(n=n, faults=1, excs=list(EXCS_MORE), rich=True, tty=False, stdout_faults=True))
         out.append(dict(n=2, faults=3, excs=list(EXCS)))
         out.append(dict(n="I2", faults=3, excs=list(EXCS)))
+        out.append(dict(n=2, faults=2, excs=["RenderError", "KeyboardInterrupt"], stdout_faults=True))
+        out.append(dict(n="I2", faults=1, excs=list(EXCS), rich=True, stdout_faults=True))
         out.append(dict(n=4, faults=1, excs=list(EXCS), rich=True))
         out.append(dict(n="I4", faults=1, excs=list(EXCS), rich=True))
-        out.append(dict(n=1, faults=2, excs=list(EXCS_MORE), rich=True))
+        out.append(dict(n=1, faults=2, excs=list(EXCS_MORE), rich=True, stdout_faults=True))
         out.append(dict(n=1, faults=1, excs=list(EXCS_MORE), rich=True, tty=False))
     return out
 
@@ -498,7 +558,9 @@ def run(ctx):
         fixpoint=True,
         operations=[list(o) for o in ops_of(dict(rich=True))],
         fault_kinds=["k-th _render_ inside the operation", "k-th _get_render_data_ inside the operation",
-                     "size validation of draw (terminal 1x1)"],
+                     "size validation of draw (terminal 1x1)",
+                     "k-th write / flush / sleep of a draw on the virtual stdout, instead / after, KeyboardInterrupt / "
+                     "OSError (configurations with stdout_faults)"],
         exceptions=list(EXCS if ctx.tier == "quick" else EXCS_MORE),
         configurations=items,
         terminal=list(TERM),
